@@ -40,7 +40,7 @@ def _dummy(a):
     if isinstance(a, np.ndarray):
         if a.dtype == object:
             return np.ones(a.shape, dtype=float)
-        return np.ones(a.shape, dtype=a.dtype)
+        return a                # concrete arrays (indices, masks, data) take part as they are
     if isinstance(a, SReal):
         return 1.0
     if isinstance(a, SInt):
@@ -867,6 +867,24 @@ class NPProxy:
     def atleast_2d(self, a):
         return np.atleast_2d(a)
 
+    def floor(self, a, **kw):
+        if is_sym(a):
+            if isinstance(a, SInt):
+                return a
+            return SReal(z3.ToReal(z3.ToInt(a.t)))
+        return np.floor(a, **kw)
+
+    def logspace(self, a, b, n=50, **kw):
+        if not (is_sym(a) or is_sym(b)):
+            return np.logspace(a, b, n, **kw)
+        from .core import POW10
+        lin = self.linspace(a, b, n)
+        return SymArray([SReal(POW10(rterm(e))) for e in raw(lin).ravel()], "float64")
+
+    @property
+    def ma(self):
+        return MA
+
     def ndim(self, a):
         return 0 if is_sym(a) else np.ndim(a)
 
@@ -897,6 +915,36 @@ def _dummy_nested(a):
     return _dummy(a)
 
 
+class SymMasked:
+    """Stand-in for numpy.ma.MaskedArray over symbolic data: .data, .mask, .filled()."""
+
+    def __init__(self, data, mask):
+        self.data = data
+        self.mask = np.asarray(mask, dtype=bool)
+        self.shape = np.shape(data)
+
+    def filled(self, fill=np.nan):
+        out = np.array(raw(self.data), dtype=object, copy=True)
+        m = np.broadcast_to(self.mask, out.shape)
+        out[m] = fill
+        return SymArray(out, getattr(self.data, "dtype", float))
+
+    @property
+    def T(self):
+        return SymMasked(self.data.T, self.mask.T)
+
+
+class MAProxy:
+    def __getattr__(self, k):
+        return getattr(np.ma, k)
+
+    def masked_where(self, cond, a, copy=True):
+        if isinstance(a, SymArray) or has_sym(a):
+            return SymMasked(a, np.broadcast_to(np.asarray(cond, dtype=bool), np.shape(a)))
+        return np.ma.masked_where(cond, a, copy=copy)
+
+
+MA = MAProxy()
 NP = NPProxy()
 
 
